@@ -128,7 +128,7 @@ def run(F, R, ctx):
            "Continuation::close_marks no longer upgrades the frame's weak mark and closes it", cm.loc(), sample=True)
     ccm = F.one(r"^steel::steel_vm::vm::\{impl VmCore\}::close_continuation_marks$")
     R.inst("C08.a", "VmCore::close_continuation_marks delegates to Continuation::close_marks",
-           bool(ccm.call_blocks(r"\{impl Continuation\}::close_marks$")),
+           bool(ccm.call_blocks(r"\{impl Continuation\}::close_marks$", wrappers=True)),
            "VmCore::close_continuation_marks is a no-op", ccm.loc(), sample=True)
 
     # ---- b
